@@ -287,9 +287,9 @@ struct SqpkFileOperationData {
 #[derive(PartialEq, Debug)]
 #[brw(big)]
 struct SqpkTargetInfo {
-    #[brw(pad_before = 3)]
-    #[brw(pad_size_to = 2)]
-    platform: Platform, // Platform is read as a u16, but the enum is u8
+    // Platform is a big-endian u16, but the enum is u8: skip its high byte along with the padding
+    #[brw(pad_before = 4)]
+    platform: Platform,
     region: Region,
     #[br(map = read_bool_from::<u16>)]
     #[bw(map = write_bool_as::<u16>)]
